@@ -12,6 +12,7 @@ import (
 	"github.com/256dpi/lungo/verifsim/simrt"
 	"go.mongodb.org/mongo-driver/bson"
 	"go.mongodb.org/mongo-driver/bson/primitive"
+	"go.mongodb.org/mongo-driver/mongo"
 	"go.mongodb.org/mongo-driver/mongo/options"
 
 	"verif/harness/model"
@@ -50,6 +51,7 @@ type actor struct {
 
 	// hooks
 	afterCall func(a *actor, c *CallRec)
+	special   func(a *actor, op *Op) bool // property specific pseudo operations
 }
 
 type streamState struct {
@@ -63,6 +65,9 @@ type streamState struct {
 	ended    string // "", closed, invalidated, lost, error:<..>
 	watchErr error
 	op       *Op
+
+	matchedStart int
+	checked      bool
 }
 
 // classifyErr names an error for whitelists and logs.
@@ -198,6 +203,9 @@ func callStr(c *CallRec) string {
 // exec runs one scripted operation.
 func (a *actor) exec(op *Op) *CallRec {
 	e := a.e
+	if a.special != nil && a.special(a, op) {
+		return nil
+	}
 	switch op.K {
 	case "sleep":
 		time.Sleep(time.Duration(op.Ms) * time.Millisecond)
@@ -320,6 +328,10 @@ func (a *actor) exec(op *Op) *CallRec {
 func (a *actor) stream(i int) *streamState {
 	if len(a.streams) == 0 {
 		return nil
+	}
+	if i == 99 {
+		// the most recent stream of this actor
+		return a.streams[len(a.streams)-1]
 	}
 	return a.streams[i%len(a.streams)]
 }
@@ -564,6 +576,13 @@ func (a *actor) next(op *Op) *CallRec {
 		if ok {
 			var ev bson.D
 			if err := st.s.Decode(&ev); err != nil {
+				if errors.Is(err, mongo.ErrNilCursor) {
+					// closed by another task between Next and Decode
+					if st.ended == "" {
+						st.ended = "closed"
+					}
+					return
+				}
 				c.Err = err
 				return
 			}
